@@ -498,6 +498,9 @@ theorem dropHandle_lexEnabled (m : Mem) (ft : Nat) : (m.dropHandle ft).lexEnable
   · exact commit_lexEnabled m ft
   · rfl
 
+theorem enableVecForEmbs_lexEnabled (m : Mem) (embs : List VecEnt) : (m.enableVecForEmbs embs).lexEnabled = m.lexEnabled := by
+  unfold Mem.enableVecForEmbs; split <;> rfl
+
 theorem recoverWal_lexEnabled (m : Mem) (ft : Nat) : (m.recoverWal ft).lexEnabled = m.lexEnabled := by
   unfold Mem.recoverWal
   split
@@ -506,10 +509,11 @@ theorem recoverWal_lexEnabled (m : Mem) (ft : Nat) : (m.recoverWal ft).lexEnable
     · rfl
     · rename_i ma δ h1
       have e1 := applyRecords_lexEnabled m m.pending true ma δ h1
-      show (if δ.nonEmpty = true then ma.rebuildIndexes δ.embs δ.inserted ft else ma.flushTantivy ft).lexEnabled = _
+      show (if δ.nonEmpty = true then (ma.enableVecForEmbs δ.embs).rebuildIndexes δ.embs δ.inserted ft
+        else (ma.enableVecForEmbs δ.embs).flushTantivy ft).lexEnabled = _
       split
-      · rw [rebuildIndexes_lexEnabled, e1]
-      · rw [(flushTantivy_keeps ma ft).2.1, e1]
+      · rw [rebuildIndexes_lexEnabled, enableVecForEmbs_lexEnabled, e1]
+      · rw [(flushTantivy_keeps _ ft).2.1, enableVecForEmbs_lexEnabled, e1]
 
 theorem openFrom_lexEnabled (m : Mem) (ft : Nat) : (m.openFrom ft).lexEnabled = true := by
   unfold Mem.openFrom
@@ -631,8 +635,8 @@ theorem fullLexRebuild_compact (fs : List Frame) (c : Nat) : fullLexRebuild (com
 theorem compactFramesV_skel (v : VacVariant) (m : Mem) : SkelLex (m.compactFramesV v) m := by
   unfold Mem.compactFramesV
   split
-  · exact ⟨view_compact m.frames 0, rfl, [], by simp [OnlyLex], by simp [Mem.compactFrames]⟩
   · exact compactFrames_skel m
+  · exact ⟨view_compact m.frames 0, rfl, [], by simp [OnlyLex], by simp [Mem.compactFrames]⟩
 
 /-- the handle right after the rebuild at the end of `vacuum` -/
 def Mem.vacRebuilt (v : VacVariant) (m : Mem) (a b : Nat) : Mem :=
@@ -640,11 +644,29 @@ def Mem.vacRebuilt (v : VacVariant) (m : Mem) (a b : Nat) : Mem :=
 
 theorem vacuumV_eq (v : VacVariant) (m : Mem) (a b : Nat) (hi : Inv m) :
     m.vacuumV v a b =
-      ((if v.checkpoints then (if v.persistsSketch then (m.vacRebuilt v a b).persistSketch else m.vacRebuilt v a b).walCheckpoint
-        else (if v.persistsSketch then (m.vacRebuilt v a b).persistSketch else m.vacRebuilt v a b)), Out.ok) := by
+      ((if v.checkpoints then (if v.persistsSketch then (m.vacRebuilt v a b).persistSketch.bumpFooter b else m.vacRebuilt v a b).checkpoint
+        else (if v.persistsSketch then (m.vacRebuilt v a b).persistSketch.bumpFooter b else m.vacRebuilt v a b)), Out.ok) := by
   unfold Mem.vacuumV
   rw [commit_ok m a hi]
   rfl
+
+/-- with every switch on, the variant IS the Core model's (repaired) function -/
+theorem vacuumV_repaired (m : Mem) (a b : Nat) : m.vacuumV .repaired a b = m.vacuum a b := rfl
+
+theorem stepV_repaired (m : Mem) (op : Op) : stepV .repaired m op = step m op := by
+  cases op <;> rfl
+
+theorem runV_repaired (m : Mem) (ops : List Op) : runV .repaired m ops = run m ops := by
+  induction ops generalizing m with
+  | nil => rfl
+  | cons op ops ih => show runV .repaired (stepV .repaired m op).1 ops = run (step m op).1 ops; rw [stepV_repaired, ih]
+
+theorem traceV_repaired (m : Mem) (ops : List Op) : traceV .repaired m ops = trace m ops := by
+  induction ops generalizing m with
+  | nil => rfl
+  | cons op ops ih =>
+    show (op, (stepV .repaired m op).2) :: traceV .repaired (stepV .repaired m op).1 ops = (op, (step m op).2) :: trace (step m op).1 ops
+    rw [stepV_repaired, ih]
 
 theorem vacRebuilt_skel (v : VacVariant) (m : Mem) (a b : Nat) : SkelLex (m.vacRebuilt v a b) (m.commit a).1 :=
   SkelLex.trans (rebuildIndexes_skel _ [] [] b) (compactFramesV_skel v _)
@@ -661,8 +683,8 @@ theorem vacuumV_sim (v : VacVariant) (m : Mem) (a b : Nat) (hi : Inv m) :
   · cases v.checkpoints <;> cases v.persistsSketch
     · exact hq
     · exact ⟨hq.lex, hq.pi⟩
-    · exact ⟨(by intro r hr; cases hr), hq.pi⟩
-    · exact ⟨(by intro r hr; cases hr), hq.pi⟩
+    · exact ⟨(by intro r hr; cases hr), rfl⟩
+    · exact ⟨(by intro r hr; cases hr), rfl⟩
   · cases v.checkpoints <;> cases v.persistsSketch <;> exact hf
 
 theorem vacuumV_abs (v : VacVariant) (m : Mem) (a b : Nat) (hi : Inv m) : abs (m.vacuumV v a b).1 = abs m := by
@@ -688,11 +710,12 @@ theorem doctorV_sim (v : VacVariant) (m : Mem) (vac rt rl rv : Bool) (a b c d : 
     · obtain ⟨q, e⟩ := doctorRebuild_quiet _ rv c h1.1
       exact ⟨q, e.trans h1.2⟩
     · exact h1
-  have hd2 := dropHandle_inv _ c h2.1.inv
+  obtain ⟨hqr, har⟩ := resetWal_quiet _ h2.1
+  have hd2 := dropHandle_inv _ c hqr.inv
   obtain ⟨hq3, hf3⟩ := openFrom_spec _ d hd2.ok
   refine ⟨hq3, ?_⟩
-  show abs ((((m.doctorStage1V v vac a b c).doctorStage2 (rt || rl || rv) rv c).dropHandle c).openFrom d) = _
-  rw [openFrom_abs _ d hd2, dropHandle_abs _ c h2.1.inv, h2.2]
+  show abs (((((m.doctorStage1V v vac a b c).doctorStage2 (rt || rl || rv) rv c).resetWal).dropHandle c).openFrom d) = _
+  rw [openFrom_abs _ d hd2, dropHandle_abs _ c hqr.inv, har, h2.2]
 
 /-- ONE STEP with the variant's vacuum: the invariant is preserved and the abstract state moves exactly as
     the reference says — `vacuum` and `doctor` change nothing -/
